@@ -1,5 +1,8 @@
 pub mod c05;
+pub mod c06;
+pub mod c07;
 pub mod c17;
+pub mod c18;
 pub mod roundtrip;
 
 use crate::runner::{Campaign, PropertyRun};
@@ -17,6 +20,16 @@ pub fn property(id: &str) -> Option<PropertyRun> {
             parts: vec![Box::new(Campaign(c17::C17))],
             assumptions: vec![window_note, "the checker's evaluator and free-variable computation are the trusted base".into()],
         },
+        "C06" => PropertyRun {
+            id: id.into(),
+            parts: vec![Box::new(Campaign(c06::C06))],
+            assumptions: vec![window_note, "the checker's strict TFF reader/type checker and its reading of the preamble symbols are the trusted base (cross-checked against tests/examples/tptp4X_linux)".into()],
+        },
+        "C07" => PropertyRun {
+            id: id.into(),
+            parts: vec![Box::new(Campaign(c07::C07))],
+            assumptions: vec!["exact mode: only definite verdicts over the infinite standard domain are compared; cases with an unknown verdict are counted as skipped".into(), "finite predicate extents".into()],
+        },
         "C14" => PropertyRun {
             id: id.into(),
             parts: vec![Box::new(Campaign(roundtrip::C14))],
@@ -27,8 +40,13 @@ pub fn property(id: &str) -> Option<PropertyRun> {
             parts: vec![Box::new(Campaign(roundtrip::C15)), Box::new(Campaign(roundtrip::C15Outputs))],
             assumptions: vec!["input text comes from the checker's own printer; trees outside the image of the parser are never required to round-trip".into()],
         },
+        "C18" => PropertyRun {
+            id: id.into(),
+            parts: vec![Box::new(Campaign(c18::Fixpoint)), Box::new(Campaign(c18::Determinism))],
+            assumptions: vec!["termination is decided by pass count and cycle detection, not by a clock".into(), "determinism: three fresh processes per case (different hash seeds/ASLR)".into()],
+        },
         _ => return None,
     })
 }
 
-pub const ALL: &[&str] = &["C05", "C14", "C15", "C17"];
+pub const ALL: &[&str] = &["C05", "C06", "C07", "C14", "C15", "C17", "C18"];
